@@ -6,6 +6,10 @@ PROPS = [json.loads(l)['id'] for l in open(os.path.join(ROOT, 'properties.jsonl'
 
 TECH = 'TLA+ specification; TLC bounded model check of the group model + TLC trace validation of recorded executions of the real code'
 CLAIMED = {
+ 'C14': dict(text='TLC parses the columns from the printed header and separator and checks, for all 32 -i flag sets x ~40 constructed rows each (all-blank, min, max with every marker, negatives, one-field-only for each optional column, random, non-fitting), every cell text (alignment, number formats, blank when unknown), the line width whenever all values fit, and group presence <=> flag letter; rows are printed by the real LegendHeaders / Planes::print, and refreshes of the real CLI are checked against the implementation\'s own table.',
+             note='gutter characters (source markers) are unconstrained; LC / PTH ages accept k and k+1; floats are given values exactly representable at the printed precision', ref='5 C14'),
+ 'C15': dict(text='TLC checks for constructed tables of 1..6 rows with blanks and ties x -o strings (every key letter, unrecognised letters, two-letter strings) that each aircraft is printed exactly once and that the rows with a non-blank key are monotone in the last recognised key letter (s,a ascending, A descending, others either direction), ascending address when no letter is recognised; also on refreshes of the real CLI.',
+             note='the order among rows with equal or blank key is not constrained; letter C is not in the key alphabet of the statement and is not exercised', ref='5 C15'),
  'C11': dict(text='E1: TLC explores the bounded history model (24-frame alphabet over every supported format incl. "no valid value" variants, 2 aircraft, clock steps around the pairing window, -R on/off; depth 3 quick / 4 thorough) and checks that the step rules keep every displayed parameter inside the reference fold of the input history written from the text of C11 (InvFold) and that a step touches one row only. E2-E4: every transition of that model is replayed through the real reader (prefix-tree walk with save/restore, option sets {none,-U} x {-R}) and TLC judges every parameter of the row after every step, plus re-fed frames and random long histories for 1..4 aircraft.',
              note='frames whose single-frame decoding is a listed known finding (Gillham codes) are not in the alphabets; surface squitters and DF18 content are unconstrained; the model explores register-coherent Comm-B outcomes only', ref='5 C11'),
  'C12': dict(text='E1: bounded expiry model (3 aircraft, frames fed in batches of 1/10/11, delete_after 2 s (thorough also 1 and 5), clock steps D-1/D/D+1, each clock step starting a new reader run): InvExpiry = present while heard, stamp = last heard, a stale row survives at most 12 further accepted frames of a run. E2-E4: every maximal path replayed as multi-line reader runs with stamp shifting, -U on/off, plus random schedules over all formats with delete_after in {1,5,60,600,(86400)}; TLC judges key set and stamps after every run.',
